@@ -1140,6 +1140,7 @@ def pll(cs):
 
 
 def builtin_template_differential(ctx, fam, sample, force=None):
+    from vyper.exceptions import StaticAssertionException
     rnd = ctx.rng("builtins")
     chain = Chain("cancun")
     rows, meta = [], []
@@ -1149,8 +1150,13 @@ def builtin_template_differential(ctx, fam, sample, force=None):
             if not ((force and (kind, j) in force) or sample is None or rnd.random() < sample):
                 continue
             cs = builtin_cases(key, lits, rnd)
-            addr = chain.set_code(None, builtin_snippet_code(kind, t, len(lits)))
-            obs = [call_word(chain, addr, b"".join(word(v) for v in c)) for c in cs]
+            try:
+                addr = chain.set_code(None, builtin_snippet_code(kind, t, len(lits)))
+                obs = [call_word(chain, addr, b"".join(word(v) for v in c)) for c in cs]
+            except StaticAssertionException:
+                # a literal operand makes the assertion fail for every input (abs(MIN), addmod(.., 0)): the back end rejects
+                # the program at compile time = a revert on every case
+                obs = [-1] * len(cs)
             n_eval += len(cs)
             pl = pll(cs)
             rows.append({"spec": f"bspecs {cterm} {pl}",
